@@ -122,3 +122,246 @@ func TestVerifScenBufferedLow(t *testing.T) {
 	}
 	fmt.Printf("SCENBUFLOW scenarios=%d crossings=%d fails=%d\n", n, crossings, total)
 }
+
+// TestVerifScenEmptyWrite: an empty write must send nothing and must not disturb later messages (C18).
+func TestVerifScenEmptyWrite(t *testing.T) {
+	n := 0
+	for _, il := range []int{0, 1} {
+		for _, block := range []bool{false, true} {
+			o := simOpts{seed: int64(il), interleaveA: il, interleaveB: il, setTSN: true, tsnA: 10, tsnB: 20, blockWrite: block}
+			f := simScenario(t, fmt.Sprintf("empty-write/il=%d/block=%v", il, block), o, func(s *sim) {
+				_ = s.write(0, 1, 20, PayloadTypeWebRTCBinary)
+				before := len(s.wire)
+				err := s.write(0, 1, 0, PayloadTypeWebRTCBinary)
+				s.settle()
+				for _, p := range s.wire[before:] {
+					if p.from == 0 && p.pkt != nil {
+						for _, c := range p.pkt.chunks {
+							if d, ok := c.(*chunkPayloadData); ok && s.txCount[0][d.tsn] == 1 && len(d.userData) == 0 {
+								s.fail("C18", "empty write put a DATA chunk on the wire (empty-write-sends)")
+							}
+						}
+					}
+				}
+				_ = err
+				_ = s.write(0, 1, 30, PayloadTypeWebRTCBinary)
+				_ = s.write(0, 1, 40, PayloadTypeWebRTCString)
+				ok := s.runFaultFree(30*time.Second, 50*time.Millisecond, s.allDelivered)
+				if !ok {
+					s.fail("C18", fmt.Sprintf("messages written after an empty write are never delivered (empty-write-consumes-sequence-number): delivered %d of %d", len(s.recvd[1][1]), len(s.sent[0][1])))
+				}
+			})
+			n += len(f)
+		}
+	}
+	fmt.Printf("SCENEMPTY fails=%d\n", n)
+}
+
+// TestVerifScenReadDeadline: a read deadline makes a blocked read return at the deadline without losing
+// or duplicating a message, for arrival instants swept around the deadline (C18).
+func TestVerifScenReadDeadline(t *testing.T) {
+	n, runs := 0, 0
+	offsets := []time.Duration{-5 * time.Millisecond, -1 * time.Nanosecond, 0, 1 * time.Nanosecond, 5 * time.Millisecond, 300 * time.Millisecond}
+	for _, il := range []int{0, 1} {
+		for _, off := range offsets {
+			o := simOpts{seed: int64(off), interleaveA: il, interleaveB: il, setTSN: true, tsnA: 1, tsnB: 2}
+			f := simScenario(t, fmt.Sprintf("read-deadline/il=%d/off=%v", il, off), o, func(s *sim) {
+				// open the stream on the receiving side by delivering a first message
+				_ = s.write(0, 1, 10, PayloadTypeWebRTCBinary)
+				s.runFaultFree(2*time.Second, 10*time.Millisecond, s.allDelivered)
+				st := s.streams[1][1]
+				if st == nil {
+					s.fail("C18", "receiving stream not created")
+					return
+				}
+				const D = 100 * time.Millisecond
+				type res struct {
+					n   int
+					err error
+					at  time.Duration
+				}
+				out := make(chan res, 4)
+				t0 := s.now()
+				_ = st.SetReadDeadline(time.Now().Add(D))
+				go func() {
+					buf := make([]byte, 4096)
+					k, _, err := st.ReadSCTP(buf)
+					out <- res{k, err, s.now() - t0}
+				}()
+				s.settle()
+				// the message is written now but its packet is delivered at D+off
+				_ = s.write(0, 1, 33, PayloadTypeWebRTCBinary)
+				wait := D + off
+				if wait > 0 {
+					time.Sleep(wait)
+				}
+				for len(s.flight[0]) > 0 {
+					s.deliver(0, 0, false)
+				}
+				time.Sleep(D) // let the deadline pass in every case
+				s.settle()
+				var r res
+				select {
+				case r = <-out:
+				default:
+					s.fail("C18", "read blocked past its deadline (read-deadline-ignored)")
+					return
+				}
+				got := 0
+				if r.err == nil {
+					got++
+					if r.n != 33 {
+						s.fail("C18", fmt.Sprintf("read returned %d bytes, expected 33", r.n))
+					}
+				} else if r.at < D {
+					s.fail("C18", fmt.Sprintf("read failed with %v before its deadline (at %v)", r.err, r.at))
+				}
+				// clear the deadline and drain: the message must be there exactly once in total
+				_ = st.SetReadDeadline(time.Time{})
+				for {
+					st.lock.RLock()
+					readable := st.reassemblyQueue.isReadable()
+					st.lock.RUnlock()
+					if !readable {
+						break
+					}
+					buf := make([]byte, 4096)
+					k, _, err := st.ReadSCTP(buf)
+					if err != nil {
+						s.fail("C18", fmt.Sprintf("read after clearing the deadline failed: %v", err))
+						break
+					}
+					if k == 33 {
+						got++
+					}
+				}
+				if got != 1 {
+					s.fail("C18", fmt.Sprintf("message delivered %d times around a read deadline (read-deadline-loses-or-duplicates) off=%v", got, off))
+				}
+				runs++
+			})
+			n += len(f)
+		}
+	}
+	fmt.Printf("SCENREADDL runs=%d fails=%d\n", runs, n)
+}
+
+// TestVerifScenBlockingWrite: in blocking-write mode a write returns only after all previously written data
+// left the pending queue; a write that hits its deadline is rolled back and disturbs nothing (C18).
+func TestVerifScenBlockingWrite(t *testing.T) {
+	n, runs := 0, 0
+	for _, il := range []int{0, 1} {
+		for _, dl := range []bool{false, true} {
+			o := simOpts{seed: int64(il), interleaveA: il, interleaveB: il, setTSN: true, tsnA: 7, tsnB: 9, blockWrite: true}
+			f := simScenario(t, fmt.Sprintf("blocking-write/il=%d/deadline=%v", il, dl), o, func(s *sim) {
+				a := s.assoc[0]
+				st := s.openStream(0, 2)
+				big := 20 * int(a.maxPayloadSize) // more than the initial cwnd: stays in the pending queue
+				type wres struct {
+					err     error
+					pending int
+				}
+				w1 := make(chan wres, 1)
+				w2 := make(chan wres, 1)
+				go func() {
+					_, err := st.WriteSCTP(simPayload(0, 2, 0, big), PayloadTypeWebRTCBinary)
+					w1 <- wres{err, a.pendingQueue.size()}
+				}()
+				s.settle()
+				s.sent[0][2] = append(s.sent[0][2], simMsg{sid: 2, ppi: PayloadTypeWebRTCBinary, idx: 0, n: big})
+				if dl {
+					_ = st.SetWriteDeadline(time.Now().Add(50 * time.Millisecond))
+				} else {
+					// the second write must eventually be accepted: register it up front so that its delivery
+					// (which may happen before the harness looks at the result) is recognised
+					s.sent[0][2] = append(s.sent[0][2], simMsg{sid: 2, ppi: PayloadTypeWebRTCBinary, idx: 1, n: 500})
+				}
+				go func() {
+					_, err := st.WriteSCTP(simPayload(0, 2, 1, 500), PayloadTypeWebRTCBinary)
+					a.lock.RLock()
+					p := a.pendingQueue.size()
+					a.lock.RUnlock()
+					w2 <- wres{err, p}
+				}()
+				s.settle()
+				select {
+				case r := <-w2:
+					s.fail("C18", fmt.Sprintf("second blocking write returned (err=%v) while %d chunks of the first were still pending (blocking-write-not-blocked)", r.err, a.pendingQueue.size()))
+					return
+				default:
+				}
+				if dl {
+					time.Sleep(60 * time.Millisecond)
+					s.settle()
+					select {
+					case r := <-w2:
+						if r.err == nil {
+							s.fail("C18", "blocking write with an expired deadline returned without error")
+						}
+					default:
+						s.fail("C18", "blocking write did not return at its deadline (write-deadline-ignored)")
+					}
+					_ = st.SetWriteDeadline(time.Time{})
+				}
+				s.runFaultFree(20*time.Second, 20*time.Millisecond, func() bool { return a.BufferedAmount() == 0 })
+				if !dl {
+					select {
+					case r := <-w2:
+						if r.err != nil {
+							s.fail("C18", fmt.Sprintf("second blocking write failed: %v", r.err))
+						}
+					default:
+						s.fail("C18", "second blocking write never returned although everything was sent (blocking-write-stuck)")
+					}
+				}
+				// a later write must work and everything accepted must be delivered in order
+				if err := s.write(0, 2, 77, PayloadTypeWebRTCBinary); err != nil {
+					s.fail("C18", fmt.Sprintf("write after the blocked writes failed: %v", err))
+				}
+				if !s.runFaultFree(30*time.Second, 20*time.Millisecond, s.allDelivered) {
+					s.fail("C18", fmt.Sprintf("messages written around a failed blocking write are not all delivered: %d of %d (failed-write-disturbs-delivery)", len(s.recvd[1][2]), len(s.sent[0][2])))
+				}
+				s.checkOrderedPrefix(false)
+				runs++
+			})
+			n += len(f)
+		}
+	}
+	fmt.Printf("SCENBLOCKW runs=%d fails=%d\n", runs, n)
+}
+
+// TestVerifScenFwdUnordered: an abandoned UNORDERED message on a stream that also carries ordered (DCEP)
+// messages must not make the receiver skip a live ordered message (C07).
+func TestVerifScenFwdUnordered(t *testing.T) {
+	n := 0
+	for _, il := range []int{0, 1} {
+		o := simOpts{seed: int64(il), interleaveA: il, interleaveB: il, setTSN: true, tsnA: 1000, tsnB: 2000}
+		f := simScenario(t, fmt.Sprintf("fwd-unordered/il=%d", il), o, func(s *sim) {
+			st := s.openStream(0, 4)
+			st.SetReliabilityParams(true, ReliabilityTypeRexmit, 0) // unordered, no retransmission
+			_ = s.write(0, 4, 20, PayloadTypeWebRTCDCEP)            // ordered (DCEP is forced ordered + reliable)
+			s.runFaultFree(2*time.Second, 20*time.Millisecond, s.allDelivered)
+			_ = s.write(0, 4, 30, PayloadTypeWebRTCBinary) // unordered, will be abandoned
+			for len(s.flight[0]) > 0 {
+				s.drop(0, 0)
+			}
+			// let T3 expire: the chunk is abandoned, FORWARD-TSN goes out and is delivered
+			s.runFaultFree(5*time.Second, 50*time.Millisecond, func() bool { return s.assoc[0].BufferedAmount() == 0 })
+			_ = s.write(0, 4, 40, PayloadTypeWebRTCDCEP) // next ordered message on the same stream
+			has := func(idx int) bool {
+				for _, m := range s.recvd[1][4] {
+					if m.idx == idx {
+						return true
+					}
+				}
+				return false
+			}
+			s.runFaultFree(20*time.Second, 50*time.Millisecond, func() bool { return has(2) })
+			if !has(0) || !has(2) {
+				s.fail("C07", fmt.Sprintf("ordered message after an abandoned unordered message on the same stream is never delivered (forward-tsn-skips-live-ordered-message): delivered %d", len(s.recvd[1][4])))
+			}
+		})
+		n += len(f)
+	}
+	fmt.Printf("SCENFWDUNORD fails=%d\n", n)
+}
